@@ -98,6 +98,9 @@ func c06Char(c *core.Ctx, r ref.CharRecipe) {
 }
 
 func c06WL(c *core.Ctx, w WLCase, maxLeaves int64) {
+	if w.Sep.Kind == "custom0" {
+		return // a caller-written function that deliberately claims 0 bits: tightness does not apply
+	}
 	key := "case " + mustJSON(w)
 	rp := map[string]interface{}{"case": w}
 	kept, _ := ref.Normalise(w.Words)
